@@ -1,4 +1,11 @@
-(* C31 — Sessions resume only from authentic tickets.  Property theorems only. *)
+(* C31 — Sessions resume only from authentic tickets.
+   Property theorems only.  [hm] is HMAC-SHA-256 and [ctr] the AES-CTR keystream:
+   arbitrary functions, with their output lengths as explicit premises where a
+   theorem needs them (the correspondence run instantiates hm with the Gallina
+   HMAC-SHA-256 and ctr with keystreams computed by Go's standard library).
+   That a modified ticket cannot carry a valid MAC is HMAC unforgeability and is
+   NOT proved; what is proved is that acceptance REQUIRES the MAC equation over
+   all preceding bytes under a held key, for every byte string. *)
 From Coq Require Import List NArith ZArith Bool Arith.
 From Verif Require Import Harness Sha256 Sha512 Hmac.
 From VerifGen Require Import C31_gen.
@@ -6,7 +13,216 @@ From VerifModel Require Import C31.
 From VerifProof Require Import C31Proofs.
 Import ListNotations.
 
-Theorem C31_truncated_rejected : forall hm ctr keys t,
-  length t < 64 -> decrypt_ticket hm ctr keys t = None.
+(* ---- sealing / opening (tls/ticket.go) ---- *)
+
+(* a ticket sealed under the first key opens to the sealed state, usedOldKey = false *)
+Theorem C31_decrypt_encrypt :
+  forall (hm : bytes -> bytes -> bytes) (ctr : bytes -> bytes -> nat -> bytes),
+    (forall k m, length (hm k m) = 32) -> (forall k iv n, length (ctr k iv n) = n) ->
+    forall k rest rand state t,
+      length (kname k) = 16 -> 16 <= length rand ->
+      encrypt_ticket hm ctr (k :: rest) rand state = Some t ->
+      decrypt_ticket hm ctr (k :: rest) t = Some (state, false).
+Proof. exact decrypt_encrypt. Qed.
+Print Assumptions C31_decrypt_encrypt.
+
+(* ... and, after any change of the key list, as long as its sealing key is still the first key of that
+   name in the list; usedOldKey reports that it is no longer the sealing key *)
+Theorem C31_open_sealed_under_held_key :
+  forall (hm : bytes -> bytes -> bytes) (ctr : bytes -> bytes -> nat -> bytes),
+    (forall k m, length (hm k m) = 32) -> (forall k iv n, length (ctr k iv n) = n) ->
+    forall k rest rand state keys i t,
+      length (kname k) = 16 -> 16 <= length rand ->
+      encrypt_ticket hm ctr (k :: rest) rand state = Some t ->
+      find_key (kname k) keys 0 = Some (i, k) ->
+      decrypt_ticket hm ctr keys t = Some (state, Nat.ltb 0 i).
+Proof. exact open_sealed. Qed.
+Print Assumptions C31_open_sealed_under_held_key.
+
+(* acceptance implies: at least 64 bytes, the first 16 name a held key, and the last 32 are that key's
+   HMAC over EVERYTHING before them (name, IV and ciphertext are all covered) *)
+Theorem C31_accept_implies_mac :
+  forall (hm : bytes -> bytes -> bytes) (ctr : bytes -> bytes -> nat -> bytes) keys t p old,
+    decrypt_ticket hm ctr keys t = Some (p, old) ->
+    64 <= length t /\
+    exists i k, In k keys /\ nth_error keys i = Some k /\
+                kname k = firstn 16 t /\
+                skipn (length t - 32) t = hm (khmac k) (firstn (length t - 32) t) /\
+                old = Nat.ltb 0 i.
+Proof. exact accept_implies_mac. Qed.
+Print Assumptions C31_accept_implies_mac.
+
+Theorem C31_real_accept_implies_mac : forall ctr keys t p old,
+  decrypt_ticket hmac_sha256 ctr keys t = Some (p, old) ->
+  64 <= length t /\
+  exists i k, In k keys /\ nth_error keys i = Some k /\ kname k = firstn 16 t /\
+              skipn (length t - 32) t = hmac_sha256 (khmac k) (firstn (length t - 32) t) /\
+              old = Nat.ltb 0 i.
+Proof. exact real_accept_implies_mac. Qed.
+Print Assumptions C31_real_accept_implies_mac.
+
+(* for given preceding bytes exactly one MAC is acceptable: any change confined to the MAC is rejected *)
+Theorem C31_mac_determined :
+  forall (hm : bytes -> bytes -> bytes) (ctr : bytes -> bytes -> nat -> bytes) keys body m1 m2 r1 r2,
+    length m1 = 32 -> length m2 = 32 ->
+    decrypt_ticket hm ctr keys (body ++ m1) = Some r1 ->
+    decrypt_ticket hm ctr keys (body ++ m2) = Some r2 ->
+    m1 = m2.
+Proof. exact mac_determined. Qed.
+Print Assumptions C31_mac_determined.
+
+Theorem C31_truncated_rejected :
+  forall (hm : bytes -> bytes -> bytes) (ctr : bytes -> bytes -> nat -> bytes) keys t,
+    length t < 64 -> decrypt_ticket hm ctr keys t = None.
 Proof. exact truncated_rejected. Qed.
 Print Assumptions C31_truncated_rejected.
+
+(* tickets of another server, or sealed under a key that was rotated out *)
+Theorem C31_foreign_or_rotated_out_rejected :
+  forall (hm : bytes -> bytes -> bytes) (ctr : bytes -> bytes -> nat -> bytes) keys t,
+    (forall k, In k keys -> kname k <> firstn 16 t) -> decrypt_ticket hm ctr keys t = None.
+Proof. exact unknown_name_rejected. Qed.
+Print Assumptions C31_foreign_or_rotated_out_rejected.
+
+(* ---- ticket keys (tls/common.go ticketKeys / SetSessionTicketKeys) ---- *)
+Theorem C31_explicit_keys_win : forall h512 c now rand e es,
+  k_explicit c = e :: es -> fst (fst (ticket_keys h512 c now rand)) = e :: es.
+Proof. exact explicit_keys_win. Qed.
+Print Assumptions C31_explicit_keys_win.
+
+Theorem C31_rotation_head_fresh : forall h512 c now rand,
+  auto_mode c ->
+  exists k rest, fst (fst (ticket_keys h512 c now rand)) = k :: rest /\ (now - kcreated k < key_rotation)%Z.
+Proof. exact rotation_head_fresh. Qed.
+Print Assumptions C31_rotation_head_fresh.
+
+Theorem C31_rotation_keeps_recent : forall h512 c now rand k,
+  auto_mode c -> In k (k_auto c) -> (now - kcreated k < key_lifetime)%Z ->
+  In k (fst (fst (ticket_keys h512 c now rand))) /\
+  In k (k_auto (snd (fst (ticket_keys h512 c now rand)))).
+Proof. exact rotation_keeps_live. Qed.
+Print Assumptions C31_rotation_keeps_recent.
+
+Theorem C31_rotation_drops_expired : forall h512 c now rand k0 rest,
+  auto_mode c ->
+  fst (fst (ticket_keys h512 c now rand)) = k0 :: rest ->
+  k_auto c = [] \/ (exists h t, k_auto c = h :: t /\ (key_rotation <= now - kcreated h)%Z) ->
+  forall k, In k rest -> (now - kcreated k < key_lifetime)%Z.
+Proof. exact rotation_drops_expired. Qed.
+Print Assumptions C31_rotation_drops_expired.
+
+(* over any history of connections a key stays while every connection happened within its lifetime *)
+Theorem C31_key_survives_history : forall h512 times c rand k,
+  auto_mode c -> In k (k_auto c) ->
+  (forall t, In t times -> (t - kcreated k < key_lifetime)%Z) ->
+  In k (k_auto (run_gets h512 c rand times)).
+Proof. exact key_survives_history. Qed.
+Print Assumptions C31_key_survives_history.
+
+(* ---- resumption decisions ---- *)
+(* TLS <= 1.2: resumption implies an authentic, fresh ticket for the negotiated version whose suite the
+   client still offers and the server still supports; the resumed suite is the ticket's *)
+Theorem C31_resume12_implies :
+  forall (hm : bytes -> bytes -> bytes) (ctr : bytes -> bytes -> nat -> bytes) keys s ticket cs st old suite,
+    check12 hm ctr keys s ticket cs = Some (st, old, suite) ->
+    v_disabled s = false /\
+    (exists pt, decrypt_ticket hm ctr keys ticket = Some (pt, old) /\ unmarshal12 pt = Some st) /\
+    stale (v_now s) (s_created st) = false /\
+    s_vers st = v_vers s /\
+    suite = s_suite st /\ In suite cs /\ In suite (v_suites s).
+Proof. exact resume12_implies. Qed.
+Print Assumptions C31_resume12_implies.
+
+(* TLS <= 1.2: no authentic ticket, no resumption — and "no resumption" is the full-handshake branch of a
+   total function, never an error *)
+Theorem C31_unauthentic12_is_full_handshake :
+  forall (hm : bytes -> bytes -> bytes) (ctr : bytes -> bytes -> nat -> bytes) keys s ticket cs,
+    decrypt_ticket hm ctr keys ticket = None -> check12 hm ctr keys s ticket cs = None.
+Proof. exact unauthentic12_never_resumes. Qed.
+Print Assumptions C31_unauthentic12_is_full_handshake.
+
+(* a ticket issued under key k for state st resumes, with st's version, suite and master secret, as long as
+   k is held, the ticket is not stale and the suite is still offered and supported *)
+Theorem C31_valid_ticket_resumes :
+  forall (hm : bytes -> bytes -> bytes) (ctr : bytes -> bytes -> nat -> bytes),
+    (forall k m, length (hm k m) = 32) -> (forall k iv n, length (ctr k iv n) = n) ->
+    forall k rest rand st pt t keys i s cs,
+      (s_vers st < 65536)%N -> (s_suite st < 65536)%N -> (s_created st < 2 ^ 64)%N -> s_master st <> [] ->
+      marshal12 st = Some pt ->
+      length (kname k) = 16 -> 16 <= length rand ->
+      encrypt_ticket hm ctr (k :: rest) rand pt = Some t ->
+      find_key (kname k) keys 0 = Some (i, k) ->
+      v_disabled s = false ->
+      stale (v_now s) (s_created st) = false ->
+      v_vers s = s_vers st ->
+      In (s_suite st) cs ->
+      select_suite s (s_suite st) = Some (s_suite st) ->
+      s_certs st = [] -> requires_client_cert (v_auth s) = false ->
+      check12 hm ctr keys s t cs = Some (st, Nat.ltb 0 i, s_suite st).
+Proof. exact valid_ticket_resumes. Qed.
+Print Assumptions C31_valid_ticket_resumes.
+
+Theorem C31_state12_roundtrip : forall st pt,
+  (s_vers st < 65536)%N -> (s_suite st < 65536)%N -> (s_created st < 2 ^ 64)%N -> s_master st <> [] ->
+  marshal12 st = Some pt -> unmarshal12 pt = Some st.
+Proof. exact unmarshal12_marshal12. Qed.
+Print Assumptions C31_state12_roundtrip.
+
+(* TLS 1.3: a PSK is used only for an identity that is an authentic, fresh ticket whose suite has the hash
+   of the negotiated suite and whose binder verifies *)
+Theorem C31_psk13_implies :
+  forall (hm : bytes -> bytes -> bytes) (ctr : bytes -> bytes -> nat -> bytes) cert_count binder_ok
+         keys s h mode ids nb i st,
+    check13 hm ctr cert_count binder_ok keys s h mode ids nb = UsePSK i st ->
+    v_disabled s = false /\ mode = true /\ i < 5 /\
+    exists label pt old, nth_error ids i = Some label /\
+      decrypt_ticket hm ctr keys label = Some (pt, old) /\ unmarshal13 cert_count pt = Some st /\
+      stale (v_now s) (t_created st) = false /\ hash13 (t_suite st) suites13 = Some h /\ binder_ok i st = true.
+Proof. exact psk13_implies. Qed.
+Print Assumptions C31_psk13_implies.
+
+(* TLS 1.3: identities that do not open give a non-PSK handshake, not an alert *)
+Theorem C31_unauthentic13_is_full_handshake :
+  forall (hm : bytes -> bytes -> bytes) (ctr : bytes -> bytes -> nat -> bytes) cert_count binder_ok keys s h mode ids,
+    (forall label, In label ids -> decrypt_ticket hm ctr keys label = None) ->
+    check13 hm ctr cert_count binder_ok keys s h mode ids (length ids) = NoPSK.
+Proof. exact unauthentic13_is_full_handshake. Qed.
+Print Assumptions C31_unauthentic13_is_full_handshake.
+
+(* TLS 1.3: an alert needs a binder-count mismatch or an AUTHENTIC ticket (with a wrong binder) *)
+Theorem C31_abort13_needs_authentic_ticket :
+  forall (hm : bytes -> bytes -> bytes) (ctr : bytes -> bytes -> nat -> bytes) cert_count binder_ok keys s h mode ids nb,
+    check13 hm ctr cert_count binder_ok keys s h mode ids nb = Abort ->
+    length ids <> nb \/
+    exists label pt old st, In label ids /\ decrypt_ticket hm ctr keys label = Some (pt, old) /\
+                            unmarshal13 cert_count pt = Some st.
+Proof. exact abort13_needs_authentic_ticket. Qed.
+Print Assumptions C31_abort13_needs_authentic_ticket.
+
+(* ---- creation time of issued tickets (TLS <= 1.2 sendSessionTicket, after the repair) ---- *)
+Theorem C31_issued_by_full_handshake_is_fresh : forall prev now,
+  (0 <= now < 2 ^ 63)%Z -> stale now (issue_created12 false prev now) = false.
+Proof. exact issued_by_full_handshake_is_fresh. Qed.
+Print Assumptions C31_issued_by_full_handshake_is_fresh.
+
+Theorem C31_rewrapped_ticket_keeps_age : forall c now, issue_created12 true (Some c) now = c.
+Proof. exact rewrapped_ticket_keeps_age. Qed.
+Print Assumptions C31_rewrapped_ticket_keeps_age.
+
+(* non-vacuity by computation with the real HMAC: seal, open, rotate, rotate out, flip, truncate *)
+Theorem C31_seal_open_example :
+  let k1 := toy_key 10 in let k2 := toy_key 20 in
+  let state := [1;2;3;4;5;6;7;8;9]%N in
+  match encrypt_ticket hmac_sha256 toy_ctr [k1] (repeat 3%N 16) state with
+  | Some t =>
+      length t = 73 /\
+      decrypt_ticket hmac_sha256 toy_ctr [k1] t = Some (state, false) /\
+      decrypt_ticket hmac_sha256 toy_ctr [k2; k1] t = Some (state, true) /\
+      decrypt_ticket hmac_sha256 toy_ctr [k2] t = None /\
+      decrypt_ticket hmac_sha256 toy_ctr [k1] (xor_at t 40 1) = None /\
+      decrypt_ticket hmac_sha256 toy_ctr [k1] (xor_at t 72 128) = None /\
+      decrypt_ticket hmac_sha256 toy_ctr [k1] (firstn 72 t) = None
+  | None => False
+  end.
+Proof. exact seal_open_example. Qed.
+Print Assumptions C31_seal_open_example.
